@@ -483,7 +483,7 @@ Definition bump_macro_id (c : ctx) : ctx := set_macro_id c (S (next_macro_scope_
 (* Token::Definition, `segment` *)
 Definition define_segment (idspan : span) (l : list cfgpair) : M unit :=
   match validate_segment idspan l with
-  | _ :: _ as ds => fail ds
+  | (_ :: _) as ds => fail ds
   | [] =>
       name <- (match try_get_expression l t_name with
                | Some e => s <- evaluate_expression_as_string e ;;
@@ -706,6 +706,8 @@ Definition emit_token_body (fuel : nat) (t : token) : M unit :=
       match n with
       | None => ret tt
       | Some loop_count =>
+          (* more iterations than one pass may run (C06's limit; the budget shared by all loops of a pass is not followed) *)
+          if loop_iteration_limit <? loop_count then abort FUnsupported else
           loop_iterations fuel loop_first_index loop_count (fun index =>
             with_scope (iteration_scope_name loop_scope index) (Some b)
               (c <- get ;;
